@@ -486,7 +486,7 @@ Definition run_debpkg (op : string) (a : list str) : option str :=
           | Some d =>
               match D16.check_debsig unit str (list CX.cval)
                       (fun _ _ _ => if arg_bool (g 2) then Some (g 3) else None) first_pick tt (g 1) d with
-              | Some e => lit "ok " ++ hx e
+              | Some e => lit "ok " ++ hx e ++ sp1 ++ show_nat (List.length (D16.d_data_files _ d))
               | None => lit "err"
               end
           end)
